@@ -234,13 +234,13 @@ theorem tw_walk_root (hs : H.Sound) {S S' : List (Key × VH)} (hS : KeysOK S) (h
     {steps : List (Step VH)} (hso : ScriptOK S S' steps) (hDp : PathsIn D steps)
     {store0 : Store Node} (hrep : Rep0 H D S store0)
     (cfg : TWCfg Node) (htop : cfg.top = 0) (hpar : cfg.hasParent = false) :
-    let a' := ((⟨[], store0, [], []⟩ : TW Node).run H cfg steps).conclude H cfg
+    let a' := (({ pos := [], store := store0, log := [], cpr := [] } : TW Node).run H cfg steps).conclude H cfg
     a'.pos = [] ∧ Rep0 H D S' a'.store ∧ (∀ e ∈ a'.log, LogOK H D S' e) ∧ a'.cpr = [] := by
   intro a'
-  have hidle : Idle store0 cfg (⟨[], store0, [], []⟩ : TW Node) := ⟨by simp, rfl, rfl, rfl⟩
+  have hidle : Idle store0 cfg ({ pos := [], store := store0, log := [], cpr := [] } : TW Node) := ⟨by simp, rfl, rfl, rfl⟩
   rcases tw_run_idle H D hs hS hS' hrep cfg steps [] _ (by simpa using hso) (by simpa using hDp) hidle (by simp) with ⟨hi, hall⟩ | hinv
   · -- nothing was replaced: nothing changes, and `S' = S`
-    have hconc : a' = (⟨[], store0, [], []⟩ : TW Node).run H cfg steps := by
+    have hconc : a' = ({ pos := [], store := store0, log := [], cpr := [] } : TW Node).run H cfg steps := by
       show TW.conclude H cfg _ = _
       unfold TW.conclude
       exact tw_compactUp_idle H cfg _ _ hi.pos
@@ -281,13 +281,13 @@ at a position of the bottom layer of the parent page, and every page left was lo
 theorem tw_walk_children (hs : H.Sound) {S S' : List (Key × VH)} (hS : KeysOK S) (hS' : KeysOK S')
     {steps : List (Step VH)} (hso : ScriptOK S S' steps) (hDp : PathsIn D steps)
     {store0 : Store Node} (hrep : Rep0 H D S store0) (cfg : TWCfg Node) :
-    let a' := ((⟨[], store0, [], []⟩ : TW Node).run H cfg steps).conclude H cfg
+    let a' := (({ pos := [], store := store0, log := [], cpr := [] } : TW Node).run H cfg steps).conclude H cfg
     (∀ e ∈ a'.cpr, e.2 = specNode H S' e.1 ∧ e.1.length = cfg.top) ∧ (∀ e ∈ a'.log, LogOK H D S' e) := by
   intro a'
-  have hidle : Idle store0 cfg (⟨[], store0, [], []⟩ : TW Node) := ⟨by simp, rfl, rfl, rfl⟩
+  have hidle : Idle store0 cfg ({ pos := [], store := store0, log := [], cpr := [] } : TW Node) := ⟨by simp, rfl, rfl, rfl⟩
   rcases tw_run_idle H D hs hS hS' hrep cfg steps [] _ (by simpa using hso) (by simpa using hDp) hidle (by simp)
     with ⟨hi, _⟩ | hinv
-  · have hconc : a' = (⟨[], store0, [], []⟩ : TW Node).run H cfg steps := by
+  · have hconc : a' = ({ pos := [], store := store0, log := [], cpr := [] } : TW Node).run H cfg steps := by
       show TW.conclude H cfg _ = _
       unfold TW.conclude
       exact tw_compactUp_idle H cfg _ _ hi.pos
